@@ -63,6 +63,39 @@ def ret_stores(body, region=None):
     return out
 
 
+def read_points(body, op, depth=0):
+    """Blocks where the memory behind an operand is actually read: follow whole-local copies / refs back to the statement that reads a place
+    with a projection (a field of a longer-lived object). The canonical expression of `x.f` read before and after a call is the same text;
+    the read point tells them apart."""
+    if depth > 8 or not isinstance(op, dict):
+        return []
+    pl = op.get("c") or op.get("m")
+    if pl is None:
+        return []
+    if pl["p"]:
+        return None   # the operand itself is a projected read at its use site
+    ds = body.defs().get(pl["v"], [])
+    out = []
+    for bb, i, r in ds:
+        if i == "term":
+            out.append(bb)
+            continue
+        if "use" in r:
+            sub = read_points(body, r["use"], depth + 1)
+            out.extend([bb] if sub is None else sub)
+        elif "ref" in r:
+            rp = r["ref"]
+            if rp["p"]:
+                out.append(bb)   # a reference to a field: the value is read later, through the reference
+                out.append(("via-ref", bb))
+            else:
+                sub = read_points(body, {"c": rp}, depth + 1)
+                out.extend([bb] if sub is None else sub)
+        else:
+            out.append(bb)
+    return out
+
+
 def closures_of(F, b):
     return [bj for bj in F.bodies if bj["id"].startswith(b["id"] + "::{closure")]
 
@@ -101,26 +134,41 @@ def vec_string_validators(F, R):
             want = "slice::get_unchecked(gv::data(deref(THIS)), RangeTo{%s})" % lenf
             got = ab(canon(body.expr_of_call(gu[0][1], 0, gu[0][0]))) if gu else ""
             zst_ok = False
-            if got == "slice::get_unchecked(gv::data(deref(THIS)), RangeTo{%count})":
-                # count = len, except for a zero-sized element type (unbounded capacity): there one element stands for all
-                stores = {}
-                for bb_, i_, s_ in body.assigns():
-                    if not s_["l"]["p"] and body.local_name(s_["l"]["v"]) == "count":
-                        stores.setdefault(ab(canon(body.expr_of_rvalue(s_["r"]))), []).append(bb_)
-                for bb_, t_ in body.calls():
-                    dl = t_.get("dest")
-                    if dl and not dl["p"] and body.local_name(dl["v"]) == "count" and t_.get("target") is not None:
-                        stores.setdefault(ab(canon(body.expr_of_call(t_, 0, bb_))), []).append(t_["target"])
-                zs = None
-                for sb2, st2 in body.switches():
-                    n_ = norm_cmp(body.expr_of_operand(st2["switch"]), True)
-                    if n_ and n_[0] == "Eq" and {canon(n_[1]), canon(n_[2])} == {"0", "<T as FlatSized>::SIZE"}:
-                        ft2 = [b_ for v, b_ in st2["targets"] if int(v) == 0]
-                        zs = (sb2, st2["otherwise"], ft2[0]) if ft2 else None
-                mn = "core::cmp::Ord::min(%s, 1)" % lenf
-                if zs and set(stores) == {lenf, mn}:
-                    zst_ok = all(body.edge_dominates((zs[0], zs[1]), x) for x in stores[mn]) and \
-                        all(body.edge_dominates((zs[0], zs[2]), x) for x in stores[lenf])
+            m_ = re.fullmatch(r"slice::get_unchecked\(gv::data\(deref\(THIS\)\), RangeTo\{%(\w+)\}\)", got)
+            if m_ and gu:
+                # the range end is a local with several definitions: evaluate it along every path to the slicing call.
+                # It must be len, except for a zero-sized element type (unbounded capacity): there one element stands for all.
+                var = m_.group(1)
+                mins = {"core::cmp::Ord::min(%s, 1)" % lenf, "core::cmp::Ord::min(1, %s)" % lenf, "core::cmp::min(%s, 1)" % lenf, "core::cmp::min(1, %s)" % lenf}
+                per_path, npth = True, 0
+                for pth in body.paths(0, stop=[gu[0][0]]):
+                    if pth[-1] != gu[0][0]:
+                        continue
+                    npth += 1
+                    zst, val = None, None
+                    for ev in events(body, pth):
+                        if ev.kind == "branch":
+                            c = ev.a
+                            if c[0] == "bin":
+                                bt = bool_taken(ev)
+                                n_ = norm_cmp(c, bt) if bt is not None else None
+                                if n_ and n_[0] in ("Eq", "Ne") and {canon(n_[1]), canon(n_[2])} == {"0", "<T as FlatSized>::SIZE"}:
+                                    zst = n_[0] == "Eq"
+                            elif canon(c) == "<T as FlatSized>::SIZE":
+                                zst = (ev.b == 0) if isinstance(ev.b, int) else (False if ev.b and ev.b[0] == "not" and 0 in ev.b[1] else zst)
+                        elif ev.kind == "assign" and not ev.a["p"] and body.local_name(ev.a["v"]) == var:
+                            val = ab(canon(body.expr_of_rvalue(ev.b)))
+                        elif ev.kind == "call":
+                            dl = ev.a.get("dest")
+                            if dl and not dl["p"] and body.local_name(dl["v"]) == var:
+                                val = ab(canon(ev.b))
+                    if zst is True:
+                        per_path = per_path and val in mins
+                    else:
+                        per_path = per_path and val == lenf
+                    if zst is None:
+                        per_path = False   # the element size is not consulted on this path
+                zst_ok = per_path and npth >= 2
                 if zst_ok:
                     want = got
             okr = okr and got == want
@@ -235,34 +283,64 @@ def flex_validator(F, R):
             for bb, i, s_ in body.assigns():
                 if not s_["l"]["p"] and body.local_name(s_["l"]["v"]) == "pos":
                     okpos = body.dominates(bb, nx[0]) and ab(canon(body.expr_of_rvalue(s_["r"]))) == capv[ipos[0]]
-            okp = okpos and offs in (["flatty_base::error::Error::offset($e, Add($1.%d, OFFSET_SIZE))" % ipos[0]],
-                                     ["flatty_base::error::Error::offset(Error{%%kind, $e.1}, Add($1.%d, OFFSET_SIZE))" % ipos[0]])
+            # ... and the captured value is that early read, not a fresh read of the walker's position after the step
+            cap_ops = None
+            for bb_, i_, s_ in body.assigns():
+                r_ = s_["r"]
+                if "agg" in r_ and isinstance(r_["agg"], dict) and "closure" in str(r_["agg"]) and len(r_.get("ops", [])) == len(capv):
+                    cap_ops = r_["ops"]
+            rp = read_points(body, cap_ops[ipos[0]]) if cap_ops else None
+            # (a statement in the block that ends with the call precedes the call; a read after the step never dominates the call, also inside the loop)
+            early = bool(rp) and all(isinstance(x, int) and body.dominates(x, nx[0]) for x in rp)
+            okpos = okpos and early
+            offc = [t for bb, t in cb.calls() if call_matches(cb.expr_of_call(t, 0, bb), "Error::offset")]
+            okoff = False
+            if len(offc) == 1 and len(offs) == 1:
+                oe = cb.expr_of_call(offc[0], 0, [bb for bb, t in cb.calls() if t is offc[0]][0])
+                a0, a1 = ab(canon(oe[3][0])), ab(canon(oe[3][1]))
+                okoff = a1 == "Add($1.%d, OFFSET_SIZE)" % ipos[0] and "$e" in a0 and offs[0].startswith("flatty_base::error::Error::offset(")
+            okp = okpos and okoff
         if len(ipos) == 1 and len(iseal) == 1:
             # is_some(data) is evaluated after next()
             isc = [bb for bb, t in body.calls() if call_matches(body.expr_of_call(t, 0, bb), "is_some")]
             oks = len(isc) == 1 and body.dominates(nx[0], isc[0]) and isc[0] != nx[0]
-            # kind: e.kind, except InsufficientSize under `sealed` -> InvalidData
-            kinds = {}
-            for bb, i, s_ in cb.assigns():
-                if not s_["l"]["p"] and cb.local_name(s_["l"]["v"]) == "kind":
-                    kinds.setdefault(ab(canon(cb.expr_of_rvalue(s_["r"]))), []).append(bb)
-            insuf = None
-            seal_t = None
-            for sbb, st in cb.switches():
-                c = canon(cb.expr_of_operand(st["switch"]))
-                if c == "discr($e.0)":
-                    t0 = [tb for v, tb in st["targets"] if int(v) == 0]   # ErrorKind::InsufficientSize has discriminant 0 (checked below)
-                    insuf = (sbb, t0[0]) if t0 else None
-                elif c == "$1.%d" % iseal[0]:
-                    seal_t = (sbb, st["otherwise"])
+            # per path of the mapper: the kind is rewritten to InvalidData exactly when the error is InsufficientSize AND the item is sealed;
+            # on every other path no error kind is constructed (the original kind passes through)
             ek = F.adts.get("flatty_base::error::ErrorKind")
             d0 = ek and [v["name"] for v in ek["variants"] if int(v["discr"]) == 0] == ["InsufficientSize"]
-            if set(kinds) == {"$e.0", "InvalidData{}"} and insuf and seal_t and d0:
-                inv = kinds["InvalidData{}"]
-                okk = all(cb.edge_dominates(insuf, x) and cb.edge_dominates(seal_t, x) for x in inv) and \
-                    not any(cb.edge_dominates(insuf, x) and cb.edge_dominates(seal_t, x) for x in kinds["$e.0"])
-            else:
-                why = " -- kind stores %s" % sorted(kinds)
+            okk, npth, nrew = bool(d0), 0, 0
+            for pth in cb.paths(0):
+                if cb.term(pth[-1]) != "return":
+                    continue
+                npth += 1
+                insuf, sealed, built = None, None, set()
+                for ev in events(cb, pth):
+                    if ev.kind == "branch":
+                        c = ev.a
+                        cc = ab(canon(c))
+                        if cc == "$1.%d" % iseal[0]:
+                            sealed = bool_taken(ev)
+                        elif cc == "discr($e.0)":
+                            insuf = (ev.b == 0) if isinstance(ev.b, int) else (False if ev.b and ev.b[0] == "not" and 0 in ev.b[1] else None)
+                        elif c[0] == "call" and ("PartialEq>::eq" in cc or "PartialEq>::ne" in cc) and "$e.0" in cc and "InsufficientSize{}" in cc:
+                            bt = bool_taken(ev)
+                            if bt is not None:
+                                insuf = bt if "PartialEq>::eq" in cc else (not bt)
+                    elif ev.kind == "assign":
+                        r_ = ev.b
+                        if "agg" in r_ and isinstance(r_["agg"], dict) and r_["agg"].get("adt") == "flatty_base::error::ErrorKind":
+                            built.add(r_["agg"]["vname"])
+                if insuf is True and sealed is True:
+                    nrew += 1
+                    if built != {"InvalidData"}:
+                        okk = False
+                        why = " -- a sealed item's InsufficientSize is passed on (path %s builds %s)" % (pth[:8], sorted(built))
+                elif built:
+                    okk = False
+                    why = " -- an error kind is rewritten outside `sealed and InsufficientSize` (path %s builds %s)" % (pth[:8], sorted(built))
+            okk = okk and nrew >= 1
+            if not nrew and not why:
+                why = " -- no path rewrites the kind under `sealed and kind == InsufficientSize`"
         else:
             why = " -- captures %s" % [c[:60] for c in capv]
     else:
